@@ -2,6 +2,11 @@ module verifmc
 
 go 1.26.0
 
-require github.com/go-git/go-git/v6 v6.0.0
+require (
+	github.com/go-git/go-billy/v6 v6.0.0-alpha.2
+	github.com/go-git/go-git/v6 v6.0.0
+)
+
+require golang.org/x/sys v0.47.0 // indirect
 
 replace github.com/go-git/go-git/v6 => /repo
